@@ -321,6 +321,19 @@ pub fn fingerprint_full(node: &Node) -> Vec<(String, String)> {
     out
 }
 
+/// what a signer restored from the store alone would differ in from the running one; a restore
+/// that panics is reported as such instead of taking the harness down
+pub fn restart_gap(world: &World, node: &Arc<Node>) -> Vec<String> {
+    let id = node.get_id();
+    match std::panic::catch_unwind(std::panic::AssertUnwindSafe(|| {
+        let shadow = world.restart(&id);
+        fingerprint_diff(&fingerprint(node), &fingerprint(&shadow))
+    })) {
+        Ok(d) => d,
+        Err(_) => vec!["the signer cannot be restored from its store (restore panics)".to_string()],
+    }
+}
+
 /// components on which two fingerprints differ
 pub fn fingerprint_diff(a: &[(String, String)], b: &[(String, String)]) -> Vec<String> {
     let mut d = vec![];
